@@ -28,7 +28,7 @@ ASSUMPTIONS = ['bit-equality is demanded only between executions of the same cod
                'paired-world numerics are compared by model name within 1e-9 (relative, floor 1e-9) and only for well-conditioned regressions '
                '(normal-matrix determinant > 1e-3 of the product of its diagonal); rankings may differ inside exact ties']
 PROBES = ['same_source_object_twice', 'both_users_same_source', 'bad_call_between', 'memmap_fitter', 'apdep', 'p1_filters_permuted',
-          'p2_models_permuted', 'p3_flux_scaled', 'ill_conditioned_skipped', 'earlier_results_rechecked']
+          'p2_models_permuted', 'p3_flux_scaled', 'ill_conditioned_skipped', 'earlier_results_rechecked', 'source_edited_in_place', 'refit_after_in_place_edit']
 
 
 def budgets(tier):
@@ -44,8 +44,13 @@ def generate(rng, tier, idx):
     pool = [gen_source(rng, nf, 'src%d' % i, flags=(0, 1, 1, 1, 1, 2, 3, 4, 9), min_fit=min(2, nf)) for i in range(rng.randint(1, 4))]
     steps = []
     for _ in range(rng.randint(1, 6)):
-        if rng.random() < 0.2:
+        r = rng.random()
+        if r < 0.2:
             steps.append({'user': rng.choice('AB'), 'op': 'bad', 'kind': rng.choice(['short', 'long'])})
+        elif r < 0.4:
+            # the user edits a Source object in place (through its arrays) between fits
+            steps.append({'user': rng.choice('AB'), 'op': 'edit', 'src': rng.randrange(len(pool)), 'kind': rng.choice(['scale', 'flag', 'error', 'one_flux']),
+                          'k': rng.randrange(nf), 'c': float('%.3g' % (10 ** rng.uniform(-1, 1))), 'flag': rng.choice([0, 1, 9])})
         else:
             steps.append({'user': rng.choice('AB'), 'op': 'fit', 'src': rng.randrange(len(pool))})
     if not any(s['op'] == 'fit' for s in steps):
@@ -68,6 +73,12 @@ def execute(sc):
         out.absorb_sim(sim)
         sim.cleanup()
     return out
+
+
+def _arrays_only(info):
+    """canonical per-fit arrays of a result, without its source (which is the caller's own, editable object)"""
+    import pickle
+    return pickle.loads(canon_record(info))[1:]
 
 
 def _by_name(info):
@@ -120,18 +131,23 @@ def _execute(sc, sim, out):
     if W.apdep:
         out.probe('apdep')
     pool = [make_source(s) for s in sc['pool']]
-    # references from fresh fitters
+    cur = [dict(s, valid=list(s['valid']), flux=list(s['flux']), error=list(s['error'])) for s in sc['pool']]   # current content of each object
+    version = [0] * len(pool)
     ref = {}
-    for i in sorted(set(st['src'] for st in sc['steps'] if st['op'] == 'fit')):
-        rf = new_fitter()
-        if rf[0] != 'ok':
-            out.discarded = 'setup-fitter:' + pipe.exc_name(rf)
-            return
-        rr = pipe.call(rf[1].fit, make_source(sc['pool'][i]))
-        if rr[0] != 'ok':
-            out.discarded = 'setup-reference-fit:' + pipe.exc_name(rr)
-            return
-        ref[i] = (canon_record(rr[1]), rr[1])
+    refcache = {}
+
+    def reference(i):
+        # what a fresh Fitter returns for a fresh Source holding the object's CURRENT content
+        key = (i, version[i])
+        if key not in refcache:
+            rf = new_fitter()
+            if rf[0] != 'ok':
+                return None
+            rr = pipe.call(rf[1].fit, make_source(cur[i]))
+            if rr[0] != 'ok':
+                return None
+            refcache[key] = (canon_record(rr[1]), rr[1])
+        return refcache[key]
     store0 = digest(np.asarray(shared.models.fluxes.value, float).tobytes())
     seen = {}
     earlier = []
@@ -144,12 +160,45 @@ def _execute(sc, sim, out):
             bad = make_source({'name': 'bad', 'x': 0.0, 'y': 0.0, 'valid': [1] * n, 'flux': [1.0] * n, 'error': [0.1] * n})
             rb = pipe.call(shared.fit, bad)
             out.probe('bad_call_between')
+            sim.fired('bad_call')
             shape.append((st['user'], 'bad', rb[0]))
             # whether such a call raises is not part of the property (numpy may broadcast a 1-band source);
             # it is a disturbance after which the fitter must still behave as a fresh one
             continue
+        if st['op'] == 'edit':
+            i = st['src']
+            src = pool[i]
+            k = st['k'] % len(cur[i]['valid'])
+            if st['kind'] == 'scale':
+                src.flux[:] *= st['c']
+                src.error[:] *= st['c']
+                cur[i]['flux'] = [float(x) for x in src.flux]
+                cur[i]['error'] = [float(x) for x in src.error]
+            elif st['kind'] == 'flag':
+                if cur[i]['valid'][k] in (0, 1, 9):
+                    src.valid[k] = st['flag']
+                    cur[i]['valid'][k] = st['flag']
+            elif st['kind'] == 'error':
+                if cur[i]['valid'][k] in (1, 9):
+                    src.error[k] *= st['c']
+                    cur[i]['error'][k] = float(src.error[k])
+            else:
+                if cur[i]['valid'][k] in (0, 1, 9):
+                    src.flux[k] *= st['c']
+                    cur[i]['flux'][k] = float(src.flux[k])
+            version[i] += 1
+            out.probe('source_edited_in_place')
+            shape.append((st['user'], 'edit', st['kind']))
+            continue
         i = st['src']
         src = pool[i]
+        rfi = reference(i)
+        if rfi is None:
+            out.discarded = 'setup-reference-fit'
+            return
+        ref[i] = rfi
+        if version[i] and any(x.get('src') == i and x['op'] == 'fit' for x in sc['steps'][:k]):
+            out.probe('refit_after_in_place_edit')
         before = canon_source(src)
         rr = pipe.call(shared.fit, src)
         if rr[0] != 'ok':
@@ -163,7 +212,7 @@ def _execute(sc, sim, out):
             if seen[i] != st['user']:
                 out.probe('both_users_same_source')
         seen[i] = st['user']
-        shape.append((st['user'], i, 'repeat' if sum(1 for x in sc['steps'][:k] if x.get('src') == i) else 'first'))
+        shape.append((st['user'], i, 'repeat' if sum(1 for x in sc['steps'][:k] if x.get('src') == i and x['op'] == 'fit') else 'first'))
         if got != ref[i][0]:
             out.violate('history-dependence', 'step %d (user %s, source %s, after %s): result differs from a fresh fitter in %s' % (
                 k, st['user'], sc['pool'][i]['name'], [(x['user'], x.get('src', 'bad')) for x in sc['steps'][:k]], describe_diff(got, ref[i][0])))
@@ -171,20 +220,26 @@ def _execute(sc, sim, out):
         if canon_source(src) != before:
             out.violate('source-modified', 'step %d: the Source passed to fit() was modified' % k)
             break
-        earlier.append((info, got))
+        earlier.append((info, _arrays_only(info)))
     if not out.violations:
         out.compared('model-store')
         if digest(np.asarray(shared.models.fluxes.value, float).tobytes()) != store0:
             out.violate('model-store-changed', 'the fitter\'s model fluxes changed during the history')
         for info, c in earlier:
             out.probe('earlier_results_rechecked')
-            if canon_record(info) != c:
+            if _arrays_only(info) != c:
                 out.violate('earlier-result-changed', 'a result returned earlier was changed by a later call on the same fitter')
                 break
     trace.append(tuple(shape))
     paired = []
     if not out.violations:
         fit_idx = sorted(ref)
+        for i in fit_idx:       # paired worlds are judged on the objects' final content
+            rfi = reference(i)
+            if rfi is None:
+                out.discarded = 'setup-reference-fit'
+                return
+            ref[i] = rfi
         # ---- P1: filters permuted, photometry permuted alike
         if sc['p1_seed'] is not None and len(W.fspec) > 1:
             perm = list(range(len(W.fspec)))
@@ -196,7 +251,7 @@ def _execute(sc, sim, out):
                 out.violate('fit-failed', 'Fitter with permuted filters raised %s: %s' % (pipe.exc_name(rf), rf[1]), key='p1/%s' % pipe.exc_name(rf))
             else:
                 for i in fit_idx:
-                    s = sc['pool'][i]
+                    s = cur[i]
                     if not _well_conditioned(W, s, W.apdep):
                         out.probe('ill_conditioned_skipped')
                         continue
@@ -226,7 +281,7 @@ def _execute(sc, sim, out):
                 out.violate('fit-failed', 'package with permuted models: %s: %s' % (pipe.exc_name(rf), rf[1]), key='p2/%s' % pipe.exc_name(rf))
             else:
                 for i in fit_idx:
-                    rr = pipe.call(rf[1].fit, make_source(sc['pool'][i]))
+                    rr = pipe.call(rf[1].fit, make_source(cur[i]))
                     if rr[0] != 'ok':
                         out.violate('fit-failed', 'fit on the permuted package raised %s' % pipe.exc_name(rr), key='p2/%s' % pipe.exc_name(rr))
                         break
@@ -239,7 +294,7 @@ def _execute(sc, sim, out):
             c = sc['p3_c']
             rf = new_fitter()
             for i in fit_idx:
-                s = sc['pool'][i]
+                s = cur[i]
                 if any(v not in (0, 1, 9) for v in s['valid']) or not _well_conditioned(W, s, False):
                     out.probe('ill_conditioned_skipped')
                     continue
